@@ -381,21 +381,27 @@ def doTail (c : Cfg) (s : St) (m : Meth) (tp : Nat) (r : Resp) (k : List Fr) (re
       else retK s1 (.err .authSetup)
     else retK s1 (.resp r)
 
-/-- back in runInner: hand the result to the caller (if a call is being served); leave the loop when
-mustClose is set -/
+/-- the error a returned value stands for (none = nil error) -/
+def valRes (v : Val) : Res :=
+  match v with
+  | .err e => some e
+  | _ => none
+
+/-- runInner: `req.res <- clientRes{…}` when a call is being served -/
+def handOver (s : St) (r : Res) : St :=
+  match s.pending with
+  | some a => emit { s with stack := [], pending := none } (.ret a r)
+  | none => { s with stack := [] }
+
+/-- back in runInner: hand the result to the caller; leave the loop when mustClose is set -/
 def deliver (s : St) (v : Val) : St :=
-  let r : Res := match v with
-    | .err e => some e
-    | _ => none
-  let s1 : St := match s.pending with
-    | some a => emit { s with stack := [], pending := none } (.ret a r)
-    | none => { s with stack := [] }
-  if s1.mustClose then runExit s1 r else s1
+  let s1 := handOver s (valRes v)
+  if s1.mustClose then runExit s1 (valRes v) else s1
 
 /-- Return value `v` to the frame `f` whose callers are `k`; `retK` returns to `k`. -/
 def frameRet (c : Cfg) (f : Fr) (k : List Fr) (retK : St → Val → St) (s : St) (v : Val) : St :=
   match f with
-  | .wait _ _ _ => s                     -- not a value consumer
+  | .wait _ _ _ => retK s v              -- never below the top of the stack: nothing to do
   | .optionsK =>
     match v with
     | .resp r =>
